@@ -127,10 +127,19 @@ func (c c17) Generate(seed uint64, tier string, idx int) *core.Plan {
 	// that derives the same per-(key, context) value more than once inside one call, task B
 	// makes pairN calls of the same family with other contexts; A's c-th call is preempted at
 	// its call-relative yield j_c, B runs exactly one whole call, A resumes. j_c walks through
-	// 0..pairJ-1 with the plan index, so every yield point inside A's call — including one
+	// 0..n*stride-1 with the plan index, so every yield point inside A's call — including one
 	// between a "check" and a "fetch" that are separately locked — gets exactly this window.
 	pairOps := map[int][2][]int{oECDSA: {{6}, {4, 5, 6}}, oEd: {{4}, {2, 3, 4}}, oIss3: {{0}, {0}}}
-	const pairN, pairJ = 8, 256
+	// The n yield indices of one plan are spread stride apart (not consecutive): a yield inside
+	// a locked region makes the plan unfinishable (B blocks on the lock A holds, the plan is
+	// abandoned and its later calls never run), and such yields sit right before the windows
+	// this profile is after. Their order inside the plan rotates from cycle to cycle for the
+	// same reason. quick: q = 0..17 covers every j < 144; thorough: every j < 256, 13 times.
+	const pairN = 8
+	stride := 32
+	if tier == "quick" {
+		stride = 18
+	}
 	if po, ok := pairOps[kind]; ok && !cold && (idx/7)%4 == 3 && p.Cfg["disjoint"] == 0 {
 		p.Steps = p.Steps[:0]
 		p.Cfg["warm"] = 0
@@ -145,7 +154,8 @@ func (c c17) Generate(seed uint64, tier string, idx int) *core.Plan {
 		p.Steps = append(p.Steps, core.Step{Op: "order", A: []int64{0}}, core.Step{Op: "order", A: []int64{1}})
 		q := idx / 28
 		for c := 0; c < n; c++ {
-			p.Steps = append(p.Steps, core.Step{Op: "preempt", A: []int64{0, int64((q*n + c) % pairJ), 1, int64(c)}})
+			slot := (c + q/stride) % n
+			p.Steps = append(p.Steps, core.Step{Op: "preempt", A: []int64{0, int64(q%stride + slot*stride), 1, int64(c)}})
 			if c+1 < n {
 				p.Steps = append(p.Steps, core.Step{Op: "preempt", A: []int64{1, 0, 0, int64(c + 1)}})
 			}
